@@ -468,6 +468,8 @@ func (s *session) run(behIdx int) []sessDiv {
 		nonce := s.rng.Uint64()
 		var data []byte
 		sent := true
+		coalesced := false
+		bn := s.rng.Uint64()
 		if st.Msg == "reqblock" {
 			// the node manager asks this node for a block
 			s.wanted = s.blockBytes()
@@ -490,6 +492,13 @@ func (s *session) run(behIdx int) []sessDiv {
 				data = s.build(st.Msg)
 			}
 			s.trace = append(s.trace, fmt.Sprintf("%s(%d bytes)", st.Msg, len(data)))
+			// half of the messages travel together with the barrier ping in one write (two messages in one
+			// segment): a handler that reads ahead of its own payload swallows the ping
+			if st.Msg != "ping" && s.rng.Intn(2) == 0 {
+				coalesced = true
+				s.trace[len(s.trace)-1] += "+ping"
+				data = append(append([]byte{}, data...), wireMessage(wire.NewMsgPing(bn))...)
+			}
 			sent = s.write(data, 2*time.Second)
 		}
 		pong, eof := false, false
@@ -502,8 +511,9 @@ func (s *session) run(behIdx int) []sessDiv {
 			}
 			// barrier
 			if !eof {
-				bn := s.rng.Uint64()
-				if s.write(wireMessage(wire.NewMsgPing(bn)), 2*time.Second) {
+				if coalesced {
+					pong, eof = s.collect(bn, time.Second, out)
+				} else if s.write(wireMessage(wire.NewMsgPing(bn)), 2*time.Second) {
 					pong, eof = s.collect(bn, time.Second, out)
 				} else {
 					pong = false
